@@ -243,6 +243,21 @@ def run(ctx):
                Shape(("And", ("Ite", c, a, b), ("Not", ("Ite", c, b, a)))), Shape(("Iff", ("Ite", a, b, c), ("Ite", b, a, c))),
                Shape(("And", ("Or", ("Implies", a, b), c), ("Or", ("Implies", b, a), ("Not", c)))),
                Shape(("Or", ("And", a, b), ("And", b, a), ("Iff", a, b), ("Iff", b, a)))]
+    # theory atoms where their complement is needed (the converters build it as Not(atom).simplify()): atoms with structure
+    # the simplifier has rules for - differences compared with 0, equalities over an ite with constant branches, ...
+    from ..proc import INT
+    x_, y_ = S("x", INT), S("y", INT)
+    zero_, one_, five_ = ("lit", 0, INT), ("lit", 1, INT), ("lit", 5, INT)
+    B2_ = ("BV", 2)
+    u_, v_ = S("u", B2_), S("v", B2_)
+    atoms = [("LE", ("Minus", x_, y_), zero_), ("LE", zero_, ("Minus", x_, y_)), ("LT", ("Minus", x_, y_), zero_), ("LT", x_, y_),
+             ("Equals", ("Ite", ("And", b, c), one_, zero_), one_), ("Equals", zero_, ("Ite", ("Or", b, c), five_, zero_)),
+             ("Equals", ("Ite", b, one_, zero_), zero_), ("Equals", ("Ite", ("And", b, c), x_, y_), x_), ("Equals", x_, y_),
+             ("BVULT", u_, v_), ("BVSLE", u_, ("lit", 2, B2_)), ("Equals", ("BVSub", u_, v_), ("lit", 0, B2_)), ("LE", x_, x_),
+             ("Equals", ("Plus", x_, zero_), y_)]
+    for at in atoms:
+        shapes += [Shape(("Implies", at, a)), Shape(("Not", at)), Shape(("Iff", a, at)), Shape(("Ite", at, a, ("Not", a))),
+                   Shape(("Or", ("Not", at), ("And", a, at)))]
     jobs = []
     for sh in shapes:
         jobs.append(("pysmt.rewritings.CNFizer", sh))
